@@ -517,7 +517,11 @@ impl Rasn {
             }
         } else {
             self.format_range_annotations(
-                matches!(member.ty(), ASN1Type::Integer(_)),
+                // a referenced type may be an INTEGER: no implicit lower bound of 0 (cf. generate_typealias)
+                matches!(
+                    member.ty(),
+                    ASN1Type::Integer(_) | ASN1Type::ElsewhereDeclaredType(_)
+                ),
                 &all_constraints,
             )?
         };
